@@ -1266,7 +1266,8 @@ def _make_pianoroll(
 
     onset -= min_time
     if end_time is not None:
-        end_time -= min_time
+        # a new value: `end_time` may be the caller's own (0-d) array
+        end_time = end_time - min_time
 
     if pitch_margin > -1:
         pr_pitch -= lowest_pitch
